@@ -84,6 +84,9 @@ type World struct {
 	byR      map[string]int
 	byK      map[string]int
 	byTriple map[string]int
+
+	bystander    *secec.PrivateKey
+	bystanderSch *bitcoin.SchnorrPrivateKey
 	digests  [][]byte
 	schs     []*schEvent
 	held     []heldSig
@@ -352,6 +355,10 @@ func (w *World) genDevice(stream string, maxBytes int) kernel.DevCfg {
 		cfg.Helper = true
 		w.r.Fault("buffer_filled_by_helper_goroutine_while_the_callers_stack_moves")
 	}
+	if w.t.Chance(stream, "dev.reenter", 1, 10) {
+		cfg.Reenter = true
+		w.r.Fault("entropy_reader_calls_back_into_the_library")
+	}
 	if w.t.Chance(stream, "dev.gc", 1, 10) {
 		cfg.GC = 1 + w.t.Choose(stream, "dev.gc.n", 2)
 		w.r.Fault("garbage_collected_inside_the_entropy_read")
@@ -445,6 +452,38 @@ func withGlobalRand(dev io.Reader, f func()) {
 	crand.Reader = dev
 	defer func() { crand.Reader = old }()
 	f()
+}
+
+// armReenter: a device announced as re-entrant signs with ANOTHER key (a
+// bystander of the world, never one of the history's keys) inside its first
+// Read - an ECDSA signature in RFC 6979 mode and a BIP-340 signature - while
+// the call under test waits for its entropy.  What the call under test
+// returns must be what it returns with a reader that minds its own business.
+func (w *World) armReenter(dev *kernel.Device) {
+	if dev == nil || !dev.Cfg.Reenter {
+		return
+	}
+	if w.bystander == nil {
+		b := bytes.Repeat([]byte{0x5b}, 32)
+		k, err := secec.NewPrivateKey(b)
+		if err != nil {
+			return
+		}
+		w.bystander = k
+		w.bystanderSch = bitcoin.NewSchnorrPrivateKeyFromECDSA(k)
+	}
+	done := false
+	dev.Yield = func() {
+		if done {
+			return
+		}
+		done = true
+		_ = protect(func() {
+			dg := bytes.Repeat([]byte{0xb5}, 32)
+			_, _, _, _ = w.bystander.SignRaw(secec.RFC6979SHA256(), dg)
+			_, _ = w.bystanderSch.Sign(scripted(dg), []byte("a record the reader signs"), nil)
+		})
+	}
 }
 
 // ---------------------------------------------------------------- run
